@@ -36,6 +36,33 @@ CLAIMED = {
  'C18': ('metamorphic: every single layout rewrite at every position of bounded-exhaustive small programs, random subsets on random programs; parse tree modulo trivia and values on both implementations must not change',
          'All core ASTs of at most 3 (quick) / 4 (thorough) nodes and random larger ones; each gap between tokens rewritten to none / one / many spaces / tab / line break / annotation / comment line, leading and trailing trivia, parentheses around each operand, a constant side-effect block after each value; a rewrite counts only if the lexer still yields the same significant tokens; the tree modulo Group / side-effect nodes and the final values (2 implementations x 2 inputs) must be unchanged.',
          'Rewrites that are not meaning-preserving by the language rules (property names, same-kind list items, else-chain arms, separators in parentheses) are excluded by construction.', 'DESIGN.md §3 C18'),
+ 'C07': ('bounded-exhaustive operator x boundary-value matrix, deep-data families, token-class sequences and proptest-generated programs, all executed under catch_unwind in watchdog-guarded workers',
+         'Every binary operator spelling applied to every ordered pair of 91 operand values (all types and shapes plus i32 limits, huge / subnormal / infinite floats, shift counts, empty and multi-byte text and bytes, reversed / negative / fractional / huge ranges and slices), every prefix/suffix operator on each, data nested up to depth 400, all accepted token-class sequences, token soups, random operator expressions and random core ASTs with boundary literals; each executed on both data implementations with and without host callbacks for up to 3000 steps and read back: no unwinding, no abort.',
+         'Harness built with debug assertions and overflow checks; an Err result is never a violation.', 'DESIGN.md §3 C07'),
+ 'C08': ('exhaustive finite matrix: instruction x operand values of every type x data implementation x host mode, instructions called directly above sentinel registers under recording hosts',
+         '19 binary instructions x 32x32 representative values of all 20 value types and 7 unary instructions x 32 values, on both implementations with a declining and an accepting deferred-operation callback, plus an identifier look-up against every input type: outside the table of defined combinations the call returns Ok, the callback sees exactly one call with this instruction and both operands (type and address) in order, declining leaves exactly one unit register, accepting exactly the callback value, sentinels intact.',
+         'DEFINED(op) is DESIGN.md Appendix C; casts are judged only towards composite/callable targets.', 'DESIGN.md §3 C08, Appendix C'),
+ 'C11': ('exhaustive pairs of a 48-value pool + proptest-generated value trees with twins and near-miss mutants; model = structural identity of canonical forms; laws (symmetry, negation, transitivity via twins) and sentinel registers',
+         'Every ordered pair of 48 small values and random trees (depth <= 3) paired with a differently-built equal twin, a near-miss mutant or an independent tree, compared in both orders with Equal and NotEqual called directly and through a compiled program on both implementations: the answer equals structural identity of canonical forms (int/float numerically, char = 1-char text, byte = 1-byte list, lists and concatenations as flat sequences), is symmetric, != is the negation, exactly one register is left above intact sentinels.',
+         'Finite floats only; ranges, slices, partials, externals, expression values are outside the statement value list.', 'DESIGN.md §3 C11'),
+ 'C12': ('exhaustive pairs over the numeric boundary lattice, all short strings / byte lists and all cross-type pairs + random longer strings; natural-order model and order laws on the observed answers',
+         'All ordered pairs of 260 numbers (C09 lattice, float pool, int/float neighbours), of all char lists and byte lists of length <= 3 (incl. empty and proper prefixes), of chars and bytes, and of 35 values of every type incl. NaN and infinities, with the four comparison instructions called directly in both orders on both implementations: agreement with the natural order, a<b iff b>a, <= is not >, >= is not <, non-comparable combinations false on all four, NaN gives unit, one result register.',
+         'Slices are outside the statement operand list.', 'DESIGN.md §3 C12'),
+ 'C14': ('round trip through my own literal printers: bounded-exhaustive integers x radixes, all short strings / byte vectors in every quote form, symbols, plus proptest-generated numbers, floats, strings, bytes',
+         'Boundary i32 values in decimal and every radix 2..36, every string of length <= 3 over 9 characters (ASCII, quote, backslash, LF, TAB, 2-/3-/4-byte characters) in 1-/3-/4-quote forms raw and escaped, every byte vector of length <= 2 over 9 bytes in quoted and numeric forms, ASCII and non-ASCII symbol names, and random values with random separators / digit case / quote forms: the one-literal program evaluated on both implementations reads back exactly the spelled value, and the symbol table returns the written name.',
+         'Spelling rules of docs/src/escape_sequences.md and DESIGN.md; exponent forms, negative numbers, NaN, infinities have no literal spelling and are not judged.', 'DESIGN.md §3 C14'),
+ 'C15': ('bounded-exhaustive operation histories x growth configurations against an abstract model of independent growable tables, checked after every operation; proptest-generated long histories; interning clause for SimpleGarnishData',
+         'Every history of up to 5 (quick) / 6 (thorough) of 14 store operations on BasicGarnishData for 8 growth configurations (initial size 0/1/2 x +1/+2/x2) plus all histories one longer for the two tightest configurations, and random histories of 50-400 operations on both implementations (default and random per-table settings): after every operation every address ever returned, every instruction, jump entry, register, the current value and every symbol name reads back as in the model; equal constants share an address in SimpleGarnishData, different ones do not.',
+         'Generator preconditions of DESIGN.md §5a (list protocol, no pop below a frame base, growth policies that make progress); needs hook 1 (StorageSettings re-export).', 'DESIGN.md §3 C15'),
+ 'C16': ('bounded-exhaustive small lists over 6 item kinds + proptest-generated large lists with adversarial 64-bit keys and concatenations, against a plain Vec model, through the data interface and through Access/Apply',
+         'Every list of length <= 4 over {number, text, symbol, symbol-keyed pair, number-keyed pair, nested list} and random lists of up to 64 items / concatenations of 2-3 lists with adversarial raw symbol keys (equal modulo the length, 0, u64::MAX, ascending, descending, interleaved extremes), on both implementations: length, every index, no item past the end, insertion order, value of every present key, absent for absent keys (never an error), and the same answers from the Access and Apply instructions incl. negative and past-the-end indexes.',
+         'Distinct symbol keys per container.', 'DESIGN.md §3 C16'),
+ 'C19': ('proptest-generated value graphs with sharing, stacks, frames, retention boundaries and root sets, read-back snapshot before/after optimize (twice); differential runs with optimize injected before every step; clone_data read-back',
+         'Random graphs of 3-30 nodes on BasicGarnishData with values on the operand stack, the input-value stack and under frames, retention at random object boundaries, extra roots (also already reachable / retained / fresh clones): everything reachable reads back identically after optimize and after a second optimize; 35 pool programs and random programs produce the same value with optimize injected before each of their first 80 steps as uninterrupted; clone_data reads back equal and leaves every original intact.',
+         'Preconditions of DESIGN.md §5a (object boundaries, complete values, constants retained after build).', 'DESIGN.md §3 C19'),
+ 'C20': ('exhaustive ordered pairs of a 35-program pool with/without interleaved execution + proptest-generated sequences of 2-5 programs; snapshot invariants after every build and differential alone-vs-shared execution',
+         'Every ordered pair of 35 pool programs and random sequences of 2-5 programs (pool and random ASTs) built into one SimpleGarnishData and one BasicGarnishData with tape-chosen complete executions between builds: earlier programs instructions, jump entries and constants are unchanged after every later build, every operand of a new program lies inside the ranges its build created, and each program run from its reported entry (between builds and at the end) yields the value it yields when built alone.',
+         'Programs that fail when built alone (the empty program, recorded under C06) have no baseline and are not compared.', 'DESIGN.md §3 C20'),
  'C09': ('bounded-exhaustive enumeration + proptest-generated operand tapes against an i128 / IEEE-754 reference',
          'Every ordered pair of the 187-value boundary lattice x 12 binary operators and lattice+float pool x 5 unary operators exhaustively, a 62x62 float/mixed matrix, plus millions of random i32/f64 pairs; each compared on the GarnishNumber methods and on the executed instruction for both data implementations with a wide-integer/IEEE reference. Exhaustive on the stated lattice, sampled beyond it.',
          'Trusts the i128/f64 reference in checks/c09.rs and the platform powf; operands are finite.', 'DESIGN.md §3 C09'),
